@@ -609,7 +609,8 @@ func genEdgeShapes(w *caseWriter, st *pkgStats) int {
 	emit("ghost-with-a-source-that-is-not-there", c, nil)
 	// sources the kernel makes up (procfs: stat says 0 bytes, a read returns more): sizes a package states count what it ships
 	c = baseConfig("procfs")
-	c.Contents = files.Contents{{Source: "/proc/cpuinfo", Destination: "/opt/procfs/cpuinfo"}, {Source: "/proc/meminfo", Destination: "/opt/procfs/meminfo"}, {Source: "src/f1", Destination: "/opt/procfs/f1"}}
+	// (files whose text does not change while the machine runs: the crypto and i/o memory tables, not cpuinfo or meminfo)
+	c.Contents = files.Contents{{Source: "/proc/crypto", Destination: "/opt/procfs/crypto"}, {Source: "/proc/iomem", Destination: "/opt/procfs/iomem"}, {Source: "src/f1", Destination: "/opt/procfs/f1"}}
 	n++
 	runPkgCase(w, fmt.Sprintf("e-sources-from-procfs-%d", n), pkgDesc{YAML: marshalConfig(&c), Formats: []string{"ipk", "rpm"}}, st, nil)
 	c = baseConfig("nodate")
